@@ -52,7 +52,8 @@ enum Ev {
 }
 
 // MODE bits: 1 = source errors possible, 2 = encoder errors possible, 4 = a saved error may be pending,
-//            8 = symbolic send limit, 16 = symbolic yield threshold
+//            8 = symbolic send limit, 16 = symbolic yield threshold, 32 = compare chunk *length* only (bytes: see enc_item_*),
+//            64 = buffer created with spare capacity
 fn any_ev<const L: usize, const MODE: u32>() -> Ev {
     let k: u8 = kani::any();
     match k % 4 {
@@ -299,32 +300,32 @@ fn enc_step<const P: usize, const K: usize, const L: usize, const MODE: u32>() {
 #[kani::proof]
 #[kani::unwind(22)]
 #[kani::stub(alloc::fmt::format, fmt_stub)]
-fn enc_step_p0_k1_l1_m0() {
-    enc_step::<0, 1, 1, 0>()
+fn enc_step_p0_k1_l1_m63() {
+    enc_step::<0, 1, 1, 63>()
 }
 #[kani::proof]
 #[kani::unwind(22)]
 #[kani::stub(alloc::fmt::format, fmt_stub)]
-fn enc_step_p0_k1_l1_m24() {
-    enc_step::<0, 1, 1, 24>()
+fn enc_step_p3_k1_l2_m63() {
+    enc_step::<3, 1, 2, 63>()
 }
 #[kani::proof]
 #[kani::unwind(22)]
 #[kani::stub(alloc::fmt::format, fmt_stub)]
-fn enc_step_p0_k1_l1_m1() {
-    enc_step::<0, 1, 1, 1>()
+fn enc_step_p0_k2_l1_m63() {
+    enc_step::<0, 2, 1, 63>()
 }
 #[kani::proof]
 #[kani::unwind(22)]
 #[kani::stub(alloc::fmt::format, fmt_stub)]
-fn enc_step_p0_k1_l1_m2() {
-    enc_step::<0, 1, 1, 2>()
+fn enc_step_p6_k2_l2_m63() {
+    enc_step::<6, 2, 2, 63>()
 }
 #[kani::proof]
 #[kani::unwind(22)]
 #[kani::stub(alloc::fmt::format, fmt_stub)]
-fn enc_step_p0_k1_l1_m4() {
-    enc_step::<0, 1, 1, 4>()
+fn enc_step_p5_k2_l0_m63() {
+    enc_step::<5, 2, 0, 63>()
 }
 #[kani::proof]
 #[kani::unwind(22)]
@@ -332,48 +333,68 @@ fn enc_step_p0_k1_l1_m4() {
 fn enc_step_p0_k1_l1_m31() {
     enc_step::<0, 1, 1, 31>()
 }
-#[kani::proof]
-#[kani::unwind(22)]
-#[kani::stub(alloc::fmt::format, fmt_stub)]
-fn enc_step_p3_k1_l2_m31() {
-    enc_step::<3, 1, 2, 31>()
-}
-#[kani::proof]
-#[kani::unwind(22)]
-#[kani::stub(alloc::fmt::format, fmt_stub)]
-fn enc_step_p0_k2_l1_m31() {
-    enc_step::<0, 2, 1, 31>()
-}
-#[kani::proof]
-#[kani::unwind(22)]
-#[kani::stub(alloc::fmt::format, fmt_stub)]
-fn enc_step_p6_k2_l2_m31() {
-    enc_step::<6, 2, 2, 31>()
-}
-#[kani::proof]
-#[kani::unwind(22)]
-#[kani::stub(alloc::fmt::format, fmt_stub)]
-fn enc_step_p5_k2_l0_m31() {
-    enc_step::<5, 2, 0, 31>()
-}
 
-#[kani::proof]
-#[kani::unwind(22)]
-#[kani::stub(alloc::fmt::format, fmt_stub)]
-fn enc_step_p0_k1_l1_m32() {
-    enc_step::<0, 1, 1, 32>()
+// ------------------------------------------------------------------------------------------------
+// E1 / W1: encode_item appends exactly [0, BE32(len), payload] behind what is already buffered (real `bytes` crate)
+// ------------------------------------------------------------------------------------------------
+fn enc_item<const P: usize, const L: usize>() {
+    let pre: [u8; P] = kani::any();
+    let data: [u8; 2] = kani::any();
+    let max: Option<usize> = kani::any();
+    let mut buf = BytesMut::new();
+    buf.put_slice(&pre);
+    let mut ubuf = BytesMut::new();
+    let mut enc = CopyEnc { settings: BufferSettings::new(8, 64) };
+    let r = encode_item(&mut enc, &mut buf, &mut ubuf, None, max, BufferSettings::new(8, 64),
+                        Msg { len: L, data, enc_fail: false });
+    match &r {
+        Ok(()) => {
+            kani::cover!(true, "encoded");
+            assert!(L <= limit_of(max), "C06: message over the send limit was encoded");
+            assert!(buf.len() == P + 5 + L, "C03: frame length is not 5 + payload length");
+            let p = ref_frame_prefix(0, L);
+            let mut i = 0;
+            while i < P {
+                assert!(buf[i] == pre[i], "C01: earlier frames were modified");
+                i += 1;
+            }
+            i = 0;
+            while i < 5 {
+                assert!(buf[P + i] == p[i], "C03: prefix is not [flag 0, big-endian length]");
+                i += 1;
+            }
+            i = 0;
+            while i < L {
+                assert!(buf[P + 5 + i] == data[i], "C03: payload is not the codec's serialization");
+                i += 1;
+            }
+        }
+        Err(s) => {
+            kani::cover!(true, "refused");
+            assert!(L > limit_of(max), "C06: message within the send limit refused");
+            assert!(s.code() == Code::OutOfRange);
+        }
+    }
+    core::mem::forget(r);
+    core::mem::forget(buf);
 }
 #[kani::proof]
-#[kani::unwind(22)]
+#[kani::unwind(8)]
 #[kani::stub(alloc::fmt::format, fmt_stub)]
-fn enc_step_p0_k1_l1_m64() {
-    enc_step::<0, 1, 1, 64>()
+fn enc_item_p0_l0() {
+    enc_item::<0, 0>()
 }
 #[kani::proof]
-#[kani::unwind(22)]
+#[kani::unwind(8)]
 #[kani::stub(alloc::fmt::format, fmt_stub)]
-fn enc_step_p0_k1_l1_m96() {
-    enc_step::<0, 1, 1, 96>()
+fn enc_item_p0_l2() {
+    enc_item::<0, 2>()
+}
+#[kani::proof]
+#[kani::unwind(8)]
+#[kani::stub(alloc::fmt::format, fmt_stub)]
+fn enc_item_p6_l1() {
+    enc_item::<6, 1>()
 }
 
 // ------------------------------------------------------------------------------------------------
